@@ -227,3 +227,22 @@ def views_disjoint(a, b):
         if x[0] == "chunks" and y[0] == "rem" and x[1] == y[1] and x[2] == y[2]:
             return True
     return False
+
+
+def absolute_index(d):
+    """n when the descriptor denotes exactly operand n of the whole list (fixed(all)[n], fixed(tail(all))[n-1], …)."""
+    if d.kind != "fixed" or not isinstance(d.index, int):
+        return None
+    v, off = d.view, 0
+    while True:
+        if v == ("all",):
+            return d.index + off
+        if v[0] == "tail":
+            off += 1
+            v = v[1]
+            continue
+        if v[0] == "skip" and isinstance(v[2], int):
+            off += v[2]
+            v = v[1]
+            continue
+        return None
